@@ -27,26 +27,29 @@ Fixpoint find_sub (sub l : list N) (i : nat) : option nat :=
 Definition str_index (s sub : list N) : option Z :=
   option_map (fun i => 1 + Z.of_nat i) (find_sub sub s O).
 
-(* insert *)
-Definition insert_ix (index : Z) (len : nat) : nat :=
-  if index <? 0 then (len - (Z.to_nat (- index) - 1))%nat
-  else (Z.to_nat index - 1)%nat.
+(* insert; usize values are kept in Z (they can be as large as 2^63), saturating_sub = max 0 *)
+Definition insert_ix (index : Z) (len : Z) : Z :=
+  if index <? 0 then Z.max 0 (len - (- index - 1))
+  else Z.max 0 (index - 1).
+(* s.by_ref().take(index) ++ insert ++ rest: take stops at the end of the string *)
 Definition str_insert (s ins : list N) (index : Z) : list N :=
-  let ix := insert_ix index (length s) in
+  let len := Z.of_nat (length s) in
+  let ix := Z.to_nat (Z.min (insert_ix index len) len) in
   firstn ix s ++ ins ++ skipn ix s.
 
 (* slice *)
-Definition slice_start (i : Z) (len : nat) : nat :=
-  if i <? 0 then (len - Z.to_nat (- i))%nat
-  else if 0 <? i then Nat.min (Z.to_nat i - 1) len
-  else O.
-Definition slice_end (j : Z) (len : nat) : nat :=
-  if j <? 0 then (len - (Z.to_nat (- j) - 1))%nat else Z.to_nat j.
-(* None = the "Bad indexes" error *)
+Definition slice_start (i : Z) (len : Z) : Z :=
+  if i <? 0 then Z.max 0 (len - (- i))
+  else if 0 <? i then Z.min (i - 1) len
+  else 0.
+Definition slice_end (j : Z) (len : Z) : Z :=
+  if j <? 0 then Z.max 0 (len - (- j - 1)) else j.
+(* None = the "Bad indexes" error; skip(start).take(end - start) *)
 Definition str_slice (s : list N) (i j : Z) : option (list N) :=
-  let st := slice_start i (length s) in
-  let en := slice_end j (length s) in
-  if (st <=? en)%nat then Some (firstn (en - st) (skipn st s)) else None.
+  let len := Z.of_nat (length s) in
+  let st := slice_start i len in
+  let en := slice_end j len in
+  if st <=? en then Some (firstn (Z.to_nat (Z.min (en - st) len)) (skipn (Z.to_nat st) s)) else None.
 
 Definition str_upper (s : list N) : list N := map to_ascii_upper s.
 Definition str_lower (s : list N) : list N := map to_ascii_lower s.
